@@ -199,7 +199,11 @@ func c06Decode(c *Ctx, input string, useNumber bool) (nontrivial bool) {
 	exp, accept, amb := c06Ref(input, useNumber)
 	var got mxj.Map
 	var err error
-	st, pan := protect(func() { got, err = mxj.NewMapJson([]byte(input)) })
+	var gw []string
+	st, pan := protect(func() { gw = globalWrites(func() { got, err = mxj.NewMapJson([]byte(input)) }) })
+	if len(gw) > 0 {
+		c.Count("decodes_that_wrote_package_state", 1) // informational, see C01
+	}
 	c.S.Transitions++
 	c.S.Validated++
 	shape := "object"
